@@ -367,20 +367,22 @@ func c13Known(cdc *cdcCodec, v0 reflect.Value, ap c13Applied, obs, detail string
 		return ok
 	})
 	// the UNMUTATED encoding is already mis-decoded by a known early return: everything behind that point is parsed out of step
-	if baseHasEmptyImports && strings.HasPrefix(cdc.Name, "types.") {
+	// (KF-C11-2 / KF-C11-7 are repaired, 0c0a5d3 / da65e5d: a base value with these features decodes in step now, so a failure
+	// on it is attributed by the reference parser's reason below; the pre-attribution is kept only when the lax grammar really explains it)
+	if baseHasEmptyImports && strings.HasPrefix(cdc.Name, "types.") && laxExplains("workitem") {
 		return "KF-C13-11", "the base value has a work item with no import segments; WorkItem.Decode returns early there (see KF-C11-2): " + detail
 	}
-	if baseHasEmptyKey && strings.HasPrefix(cdc.Name, "types.") {
+	if baseHasEmptyKey && strings.HasPrefix(cdc.Name, "types.") && laxExplains("storage") {
 		return "KF-C13-12", "the base value has a zero-length storage key; Storage.Decode returns early there (see KF-C11-7): " + detail
 	}
 	// decoders that mis-parse even valid input: the strict parser's view of the bytes is not theirs
 	switch {
-	case name == "MetaCode":
-		return "KF-C13-13", "MetaCode.Decode early returns and short reads (see KF-C11-3): " + detail
+	case name == "MetaCode" && len(s) == 0:
+		// (narrowed after 2221af9 repaired the early returns / short reads: only the empty-input shortcut is left)
+		return "KF-C13-13", "MetaCode.Decode accepts the empty input as the empty MetaCode: " + detail
 	case name == "Operand":
 		return "KF-C13-16", "Operand.Decode reads the gas limit twice (see KF-C11-5): " + detail
-	case name == "AccumulatedServiceOutput" && obs == "non-canonical":
-		return "KF-C13-17", "AccumulatedServiceOutput.Encode is not deterministic (see KF-C11-1): " + detail
+	// (KF-C13-17 / KF-C11-1 repaired by bedc373: AccumulatedServiceOutput.Encode is deterministic, its mutants are attributed by the reference reason below)
 	}
 	if rej != nil {
 		d := "reference parser: " + rej.String() + "; " + detail
